@@ -33,14 +33,14 @@ def handle (op : String) : Option (P String) :=
       let rows ← P.nat                      -- number of target rows to report
       let sensors ← P.list P.nat            -- sensor ids to report pointing changes for
       let rs ← P.list pResult
-      let sh := if shape == "unrepaired" then Shape.unrepaired else Shape.repaired
+      let sh := if shape == "unrepaired" then Shape.unrepaired else if shape == "lastwrite" then Shape.lastWrite else Shape.repaired
       let e0 : Engine := ⟨fun _ => none, fun _ => none, [], [], [], [], fun _ => none⟩
       let e := runStep sh e0 rs
       let vis := (List.range rows).map fun i => match e.vis i with
         | some v => String.join (v.map showBool)
         | none => "-"
       let sc := sensors.map fun s => match e.sensorChanges s with
-        | some p => s!"{s}={p.boresight}/{p.lastTasked}"
+        | some c => s!"{s}={c.2.boresight}/{c.2.lastTasked}"
         | none => s!"{s}=-"
       pure (s!"obs[{sRecs e.obs}] missed[{sRecs e.missed}] vis[{",".intercalate vis}] sc[{",".intercalate sc}]")
   | _ => none
